@@ -42,12 +42,15 @@ PROPS = {
     },
     "C07": {
         "level": "model_checking",
-        "kani": ["c05_air"],
+        "kani": ["c05_air", "c05_fri"],
         "verus": [],
         "level_text": "Contract pair encode/decode checked in composed form read_from(to_bytes(v)) == Ok(v) with v built "
                       "by the public constructor from fully symbolic arguments (complete in all scalar arguments; "
                       "container contents bounded).",
-        "level_note": "Trusted: Kani/CBMC, alloc model. Metadata/container lengths bounded as labelled per obligation.",
+        "level_note": "Trusted: Kani/CBMC, alloc model. Metadata/container lengths bounded as labelled per obligation. Under "
+                      "contract: ProofOptions, TraceInfo, Context, Commitments (3 digests), a 32-byte digest, FriProof without "
+                      "layers. NOT under contract: Queries, OodFrame, FriProofLayer, BatchMerkleProof round trips and the "
+                      "verdict-preservation clause for whole proofs.",
     },
     "C21": {
         "level": "proof",
